@@ -19,30 +19,40 @@ unless a resizer is between its change and its counter bump (`rc_guards_hp`) -/
 theorem snapshot_guarded_by_counter (s : PS) (h : Reach s) (t : Tid)
     (hok : (s.th t).hpOk = true ∧ (s.th t).genOk = true) (hrc : (s.th t).snapRc = s.rc) :
     ((s.th t).snapHp = s.hp ∧ (s.th t).snapGen = s.curGen) ∨ ∃ z, (s.th z).dirty = true := by
-  sorry
+  have hi := reach_inv s h
+  rcases hi.snap_hp t hok.1 hrc with h1 | h1
+  · rcases hi.snap_gen t hok.2 hrc with h2 | ⟨z, hz, -⟩
+    · exact Or.inl ⟨h1, h2⟩
+    · exact Or.inr ⟨z, hz⟩
+  · exact Or.inr h1
 
 /-- **snapshot_current**: a thread that has passed validation computed its buckets from the current hashpower
 and holds locks of the current lock array only -/
 theorem validated_is_current (s : PS) (h : Reach s) (t : Tid) (hv : (s.th t).validated = true) :
     (s.th t).snapHp = s.hp ∧ (s.th t).snapGen = s.curGen ∧ (s.th t).held ≠ [] ∧
     ∀ l ∈ (s.th t).held, l.gen = s.curGen := by
-  sorry
+  obtain ⟨h1, h2, -, h4, h5, -, -⟩ := (reach_inv s h).val t hv
+  exact ⟨h4, h5, h1, h2⟩
 
 /-- no resizer is between its change of the table and its counter bump while some other thread is validated -/
 theorem no_dirty_while_validated (s : PS) (h : Reach s) (t z : Tid) (hv : (s.th t).validated = true)
     (hd : (s.th z).dirty = true) : False := by
-  sorry
+  exact (reach_inv s h).dirty_not_val hd hv
 
 /-- the resize counter never decreases and snapshots never run ahead of it -/
 theorem snapshot_le_counter (s : PS) (h : Reach s) (t : Tid) : (s.th t).snapRc ≤ s.rc := by
-  sorry
+  exact (reach_inv s h).rc_le t
 
 /-- a thread whose snapshot is older than the last completed resize fails validation: after taking its first lock
 its counter load does not validate it (it must release and start over) -/
-theorem stale_snapshot_fails_validation (s s' : PS) (t : Tid) (hp : (s.th t).pendingVal = true)
+theorem stale_snapshot_fails_validation (s s' : PS) (h : Reach s) (t : Tid) (hp : (s.th t).pendingVal = true)
     (hst : (s.th t).snapRc ≠ s.rc) (ha : accept s (.rcLoad t) = some s') :
     (s'.th t).validated = false ∧ (s'.th t).mustRelease = true := by
-  sorry
+  simp only [accept, hp, hst, if_true, if_false] at ha
+  cases ha
+  simp only [upd_same, and_true]
+  obtain ⟨l, -, hv, -⟩ := (reach_inv s h).pend t hp
+  exact hv
 
 /-! non-vacuity: an accepted trace in which a reader validates after a resizer has finished -/
 example : (run (init 2 2)
